@@ -193,6 +193,36 @@ fn check_proof_generic<S: Lin>(
     let mut sp = sponge::<Fr>(pre);
     let lib = guard(|| S::PC::check(&keys.vk, &cm, &point, [value], &proof, &mut sp, None));
     ctx.check(accepted(&lib), sig(P, S::NAME, "check", "honest_rejected"), || lib.describe())?;
+    // (b') the verifier insists on all t authenticated columns: the honest proof (true value) with
+    // authentication paths and/or columns removed must not be accepted
+    {
+        let lib_ok = guard(|| S::PC::check(&keys.vk, &cm, &point, [value], &proof, &mut sponge::<Fr>(pre), None));
+        if crate::util::accepted(&lib_ok) && t >= 1 {
+            let keeps: Vec<usize> = {
+                let mut k = vec![0usize, t - 1, t / 2, (pre as usize) % t];
+                k.sort();
+                k.dedup();
+                k
+            };
+            for keep in keeps {
+                for what in ["paths", "columns+paths", "columns"] {
+                    let mut m = mp.clone();
+                    if what != "columns" {
+                        m[0].opening.paths.truncate(keep);
+                    }
+                    if what != "paths" {
+                        m[0].opening.columns.truncate(keep);
+                    }
+                    let Ok(pr) = lincode::proofs_unmirror::<S>(&m) else { continue };
+                    let r = guard(|| S::PC::check(&keys.vk, &cm, &point, [value], &pr, &mut sponge::<Fr>(pre), None));
+                    ctx.check(!crate::util::accepted(&r), sig(P, S::NAME, "check", "fewer_than_t_authenticated_columns_accepted"), || {
+                        format!("t = {t}: a proof keeping only {keep} {what} was accepted")
+                    })?;
+                }
+            }
+            ctx.label("verifier_requires_t_columns_checked");
+        }
+    }
     // (c) the row encoding is linear and has the declared length
     let n_cols = mc.metadata.n_cols;
     let mut g = rng(pre ^ 0x5a);
@@ -289,7 +319,7 @@ pub fn spec() -> PropertySpec {
     units.push(PropUnit::new("C13:brakedown:proof-columns", 120, 1200, 4, |_| pcase().boxed(), check_brakedown));
     PropertySpec {
         id: "C13",
-        rule: "(a) For every lambda in 1..=256 and rate 1/rho_inv, rho_inv in {2,3,4,8,16}: the exact t (smallest t with 2(1-d/2)^t + n/|F| <= 2^-lambda, big-integer arithmetic, capped at n) fixes the polynomial length L_k = t*4^k/2 at which Ligero's compute_dimensions must switch from 2^k to 2^(k+1) rows; the library's public compute_dimensions is compared with the harness's own (exact t, integer square root) at L_k and L_k+1 for k in {1,4,8} (thorough: k = 1..12 plus random offsets), lengths up to 2^41, so a t that is off by one at any lambda/rate changes a row count; combinations for which no t exists must abort. (b) Generated honest proofs (univariate Ligero up to degree 2500, multilinear Ligero up to 11 variables, lambda in 1..=256, five rates, with/without well-formedness; Brakedown default parameters up to 10 variables): |columns| = |paths| = exact t for the codeword length in the commitment metadata, every leaf index inside the codeword, and the harness's reference verifier (own Fiat-Shamir index derivation: ceil(bits(n)/8) bytes squeezed, re-absorbed, reduced mod n; by-hand Merkle authentication; column checks) accepts. (c) E(a x + b y) = a E(x) + b E(y) on random and sparse messages of the row length, |E(x)| = declared n_ext_cols. Non-trivial: t below the codeword length (uncapped), or a message whose length is not a power of two.",
+        rule: "(a) For every lambda in 1..=256 and rate 1/rho_inv, rho_inv in {2,3,4,8,16}: the exact t (smallest t with 2(1-d/2)^t + n/|F| <= 2^-lambda, big-integer arithmetic, capped at n) fixes the polynomial length L_k = t*4^k/2 at which Ligero's compute_dimensions must switch from 2^k to 2^(k+1) rows; the library's public compute_dimensions is compared with the harness's own (exact t, integer square root) at L_k and L_k+1 for k in {1,4,8} (thorough: k = 1..12 plus random offsets), lengths up to 2^41, so a t that is off by one at any lambda/rate changes a row count; combinations for which no t exists must abort. (b) Generated honest proofs (univariate Ligero up to degree 2500, multilinear Ligero up to 11 variables, lambda in 1..=256, five rates, with/without well-formedness; Brakedown default parameters up to 10 variables): |columns| = |paths| = exact t for the codeword length in the commitment metadata, every leaf index inside the codeword, and the harness's reference verifier (own Fiat-Shamir index derivation: ceil(bits(n)/8) bytes squeezed, re-absorbed, reduced mod n; by-hand Merkle authentication; column checks) accepts. (b') the library verifier rejects the honest proof once authentication paths, columns or both are cut to 0, t/2, t-1 or a generated count below t. (c) E(a x + b y) = a E(x) + b E(y) on random and sparse messages of the row length, |E(x)| = declared n_ext_cols. Non-trivial: t below the codeword length (uncapped), or a message whose length is not a power of two.",
         assumptions: vec![
             "calculate_t is reached only through the public surface (compute_dimensions, proofs)",
             "a disagreement explained only by the library using 2^MODULUS_BIT_SIZE for |F| gets its own signature (field_size_approximation)",
